@@ -104,6 +104,28 @@ fn judge_text<'a, T: DiffableStr + ?Sized + 'a>(c: &TextCase, nt: u8, old: &'a T
             return Err(format!("TextDiff::from_slices: ops {:?} differ from capture_diff_slices {:?}", d4.ops(), want));
         }
     }
+    // both paths under a deadline that has already passed (every probe reports expiry, however many
+    // there are): the approximation of the text diff is the approximation of the sequence diff
+    if (to.len() + 2 * tn.len()) % 5 == 0 {
+        if let Some(past) = std::time::Instant::now().checked_sub(std::time::Duration::from_secs(5)) {
+            cfg.deadline(past);
+            let dd: TextDiff<'a, 'a, '_, T> = match c.tok % 5 {
+                0 => cfg.diff_lines(old, new),
+                1 => cfg.diff_words(old, new),
+                2 => cfg.diff_chars(old, new),
+                3 => cfg.diff_unicode_words(old, new),
+                _ => cfg.diff_graphemes(old, new),
+            };
+            let want_d = similar::capture_diff_slices_deadline(alg, &to, &tn, Some(past));
+            if dd.ops() != &want_d[..] {
+                return Err(format!(
+                    "{} tokens vs {} tokens, deadline already passed: TextDiff::ops {:?} != capture_diff_slices_deadline over the token slices {:?}",
+                    to.len(), tn.len(), dd.ops(), want_d
+                ));
+            }
+            obs.class("also diffed under a deadline that has passed (both paths)");
+        }
+    }
     let big = to.len() > 100 || tn.len() > 100;
     obs.nontrivial = big && to != tn;
     obs.class_if(to.len() <= 100 && tn.len() <= 100, "both sides <= 100 tokens");
@@ -433,7 +455,7 @@ impl Prop for C14 {
     type Case = Case;
     const ID: &'static str = "C14";
     fn rule() -> String {
-        "cases = Text(old, new, tokenizer, algorithm, str | [u8], newline_terminated override in {unset,true,false}) with item counts per side drawn from {0,1,2,50,51,99,100,101,102,150,200/300} (all four <=100 / >100 quadrants, and exactly 100/101 tokens), new related to old by in-place edits or independent, plus the shared text mixture | Ident(sequence pair, non-zero range offsets, integer type in {u16,u32,u64,usize, u8 only when <= 255 distinct items}). Oracle: TextDiff::ops == capture_diff_slices(alg, tokenizer(old), tokenizer(new)); the stored token slices are the tokenizer output; algorithm() == configured; newline_terminated() == override else (tokenizer == lines); TextDiffConfig::diff_slices likewise; String / Cow<str> / Vec<u8> / Cow<[u8]> inputs give the ops of the borrowed text (texts up to 400 bytes). IdentifyDistinct: ids equal <=> items equal within and across sides, old_range()/new_range() == the caller's, lookups indexed with the caller's indices. ASCII texts are also diffed as a caller-defined case-insensitive DiffableStr (new side re-spelled in upper case): ops == sequence diff of its tokens, and == the ops of the identically spelled texts; IdentifyDistinct is also run over a Vec and a transparent back-to-front view of it at the same address. Non-trivial = a side has more than 100 tokens and the texts differ (Text) / non-zero offset with >= 2 distinct items (Ident); distinct = distinct serialized case.".into()
+        "cases = Text(old, new, tokenizer, algorithm, str | [u8], newline_terminated override in {unset,true,false}) with item counts per side drawn from {0,1,2,50,51,99,100,101,102,150,200/300} (all four <=100 / >100 quadrants, and exactly 100/101 tokens), new related to old by in-place edits or independent, plus the shared text mixture | Ident(sequence pair, non-zero range offsets, integer type in {u16,u32,u64,usize, u8 only when <= 255 distinct items}). Oracle: TextDiff::ops == capture_diff_slices(alg, tokenizer(old), tokenizer(new)); the stored token slices are the tokenizer output; algorithm() == configured; newline_terminated() == override else (tokenizer == lines); TextDiffConfig::diff_slices likewise; for a fifth of the cases the same differential under a deadline that has already passed (capture_diff_slices_deadline); String / Cow<str> / Vec<u8> / Cow<[u8]> inputs give the ops of the borrowed text (texts up to 400 bytes). IdentifyDistinct: ids equal <=> items equal within and across sides, old_range()/new_range() == the caller's, lookups indexed with the caller's indices. ASCII texts are also diffed as a caller-defined case-insensitive DiffableStr (new side re-spelled in upper case): ops == sequence diff of its tokens, and == the ops of the identically spelled texts; IdentifyDistinct is also run over a Vec and a transparent back-to-front view of it at the same address. Non-trivial = a side has more than 100 tokens and the texts differ (Text) / non-zero offset with >= 2 distinct items (Ident); distinct = distinct serialized case.".into()
     }
     fn assumptions() -> Vec<String> {
         vec!["LCS inputs capped at 160 items".into()]
